@@ -41,6 +41,12 @@ def run(prop, tier, root, only=None, write=True, quiet=False):
             chk.selftest = runner.run_for(prop)
         except ImportError:
             chk.selftest = {'status': 'selftest runner not available'}
+        try:
+            from selftest import metamorph
+
+            chk.selftest = dict(chk.selftest or {}, metamorphic=metamorph.run_for(prop, root, sorted(chk.stats['functions_analysed'])))
+        except ImportError:
+            pass
     return chk.finish(write=write, quiet=quiet)
 
 
